@@ -253,3 +253,7 @@ def _short_callee(s):
         return s
     parts = s.split("::")
     return "::".join(parts[-2:])
+
+
+def rule_borrow_arc(cx, tier):
+    return rule_borrow(cx, tier, "arc")
